@@ -533,7 +533,10 @@ CaseChoice ==
                     ELSE {"root", "module", "class", "function", "attribute", "alias"})
        \* host "dataclass": the focus is the __init__ the dataclasses extension synthesises from one field
        /\ host \in IF kind \in {"root", "module"} \/ origin \in {"namespace", "builtin"} THEN {"none"}
-                    ELSE IF kind = "function" /\ origin = "static" THEN {"none", "class", "dataclass"} ELSE {"none", "class"}
+                    \* host "init": the focus is a class or function DEFINED INSIDE the __init__ of the host class - the visitor
+                    \* makes it a member of that function
+                    ELSE IF kind = "function" /\ origin = "static" THEN {"none", "class", "dataclass", "init"}
+                    ELSE IF kind = "class" /\ origin = "static" THEN {"none", "class", "init"} ELSE {"none", "class"}
        /\ dfield \in IF host = "dataclass" THEN {"plain", "kw_true", "kw_expr"} ELSE {NA}
        \* (the members of CPython's built-in modules have the names they have)
        /\ mname \in IF kind = "root" THEN {"pkg"} ELSE IF host = "dataclass" THEN {"__init__"}
@@ -561,9 +564,10 @@ CaseChoice ==
                     ELSE IF host = "class" THEN {"int", "span"} ELSE {"int", "span", "wild", "over"}
        /\ resolved \in IF kind = "alias" /\ origin = "static" /\ alno \in {"int", "span"} THEN BOOLEAN ELSE {FALSE}
        /\ slot = NA /\ spine = <<>> /\ leaf = NA /\ section = NA
+       /\ (host = "init" => (mname = "x" /\ doc = "absent" /\ deco = "none" /\ pdef \in {NA, "none"} /\ pdoc = FALSE))
        \* objects not available at runtime: defined under `if TYPE_CHECKING:`, or present in the sibling stub file only
        \* (the merger adds them); stub-only members are explored with constant-only fields
-       /\ guard \in IF origin = "static" /\ kind \in {"class", "function", "attribute"} /\ mname = "x" /\ host # "dataclass" /\ where = "container"
+       /\ guard \in IF origin = "static" /\ kind \in {"class", "function", "attribute"} /\ mname = "x" /\ host \notin {"dataclass", "init"} /\ where = "container"
                      THEN (IF host = "none" /\ bases \in {NA, "none"} /\ deco \in {NA, "none"} /\ pann \in {NA, "nopar"}
                               /\ ret \in {NA, "none"} /\ val \in {NA, "str"} /\ ann \in {NA, "none"}
                            THEN {"none", "typecheck", "stub"} ELSE {"none", "typecheck"})
@@ -600,6 +604,8 @@ Root == [Obj("module", "pkg") EXCEPT
            \* (every built-in module used as a witness has a docstring)
            !.doc = IF kind = "root" THEN DocOf(origin) ELSE IF origin = "builtin" THEN Doc(FALSE, "none", "text") ELSE NoDoc]
 Host == [Obj("class", "H") EXCEPT !.lineno = LineOf(origin, "class"), !.endlineno = LineOf(origin, "class")]
+\* `def __init__(self):` of the host class, holding the focus as a member
+InitFn == [Obj("function", "__init__") EXCEPT !.lineno = "int", !.endlineno = "int", !.params = <<Par(NoEV, NoEV, NoDoc)>>]
 \* `@dataclass class H:` - decorated, labelled {"dataclass"}
 DataHost == [Host EXCEPT !.decorators = <<Dec(EV(Leaf("name"), "container"), "int")>>, !.labels = "some"]
 SubMod == [Obj("module", "sub") EXCEPT !.filepath = "path"]
@@ -646,6 +652,7 @@ MkChain ==
   ELSE IF origin = "namespace" /\ kind # "module" THEN <<Root, SubMod, Focus>>
   ELSE IF host = "class" THEN <<Root, Host, Focus>>
   ELSE IF host = "dataclass" THEN <<Root, DataHost, Focus>>
+  ELSE IF host = "init" THEN <<Root, Host, InitFn, Focus>>
   ELSE <<Root, Focus>>
 
 \* =================================================================================================
@@ -721,15 +728,17 @@ CleanDecode == TRUE
 \* Declaratively: the walk gives every name the parent class the builder gave it (scope for a name, prev / str /
 \* none inside attribute chains); what can still differ is the scope OBJECT: the value and annotation of an attribute
 \* assigned in __init__ were built in the scope of the function and come back attached to the class.
+\* _load_function (and _load_attribute) do not load `members`: what the visitor stored below a function is dropped
+CleanMembers == \A i \in 1..(Len(MkChain) - 1) : MkChain[i].kind \in {"module", "class"}
 CleanNames == LET o == FocusOf(MkChain)
-              IN \A i \in 1..Len(SlotsOf(o)) :
+              IN CleanMembers /\ \A i \in 1..Len(SlotsOf(o)) :
                    (\E k \in 1..Len(NamePars(SlotsOf(o)[i].ev.e)) : NamePars(SlotsOf(o)[i].ev.e)[k] = "scope")
                      => SlotsOf(o)[i].ev.scope = "container"
 \* (the enum of lambda parameter kinds is restored on load: every expression renders as before)
-CleanRender == TRUE
-CleanFull == \A i \in 1..Len(MkChain) : Parsed(MkChain[i].doc) = <<"text">>
+CleanRender == CleanMembers          \* (a dropped object has no expressions to render)
+CleanFull == CleanMembers /\ \A i \in 1..Len(MkChain) : Parsed(MkChain[i].doc) = <<"text">>
 
-Clean == CleanEncode /\ CleanDecode /\ CleanNames /\ CleanRender /\ CleanFull
+Clean == CleanMembers /\ CleanEncode /\ CleanDecode /\ CleanNames /\ CleanRender /\ CleanFull
 
 InDomain == CASE Domain = "clean" -> Clean [] Domain = "defect" -> ~Clean [] OTHER -> TRUE
 Init ==
@@ -746,9 +755,10 @@ Observe ==
              same_min |-> dec.ok /\ reenc.min = enc.min, same_full |-> dec.ok /\ reenc.full = enc.full,
              tree_eq |-> dec.ok /\ Len(dec.chain) = Len(chain) /\ \A i \in 1..Len(chain) : Serialised(dec.chain[i]) = Serialised(chain[i]),
              names_before |-> NamesOf(FocusOf(chain)),
-             names_after |-> IF dec.ok THEN NamesOf(FocusOf(dec.chain)) ELSE <<>>,
-             render_eq |-> dec.ok /\ RendersOf(FocusOf(dec.chain)) = RendersOf(FocusOf(chain)),
-             clean |-> [encode |-> CleanEncode, decode |-> CleanDecode, names |-> CleanNames, render |-> CleanRender, full |-> CleanFull]]
+             names_after |-> IF dec.ok /\ Len(dec.chain) = Len(chain) THEN NamesOf(FocusOf(dec.chain)) ELSE <<[slot |-> "focus lost", pars |-> <<>>, scope |-> "na"]>>,
+             render_eq |-> dec.ok /\ Len(dec.chain) = Len(chain) /\ RendersOf(FocusOf(dec.chain)) = RendersOf(FocusOf(chain)),
+             clean |-> [encode |-> CleanEncode, decode |-> CleanDecode, names |-> CleanNames, render |-> CleanRender, full |-> CleanFull,
+                       members |-> CleanMembers]]
   /\ pc' = "done" /\ UNCHANGED <<casevars, chain, enc, dec, reenc>>
 Next == Build \/ AsJson \/ FromJson \/ AsJsonAgain \/ Observe
 Spec == Init /\ [][Next]_vars
@@ -757,13 +767,13 @@ Spec == Init /\ [][Next]_vars
 Characterisation ==
   Done => /\ (obs.enc_full_ok <=> obs.clean.encode) /\ obs.enc_min_ok
           /\ (obs.dec_ok <=> obs.clean.decode)
-          /\ (obs.dec_ok => (obs.same_min /\ obs.tree_eq))
+          /\ (obs.dec_ok => ((obs.same_min /\ obs.tree_eq) <=> obs.clean.members))
           /\ ((obs.dec_ok /\ obs.enc_full_ok) => (obs.same_full <=> obs.clean.full))
           /\ (obs.dec_ok => ((obs.names_after = obs.names_before) <=> obs.clean.names))
           /\ (obs.dec_ok => (obs.render_eq <=> obs.clean.render))
 
 \* Domain = "all": the literal clauses on the clean part of the space, in the same run
-IsClean == Done /\ obs.clean.encode /\ obs.clean.decode /\ obs.clean.names /\ obs.clean.render /\ obs.clean.full
+IsClean == Done /\ obs.clean.members /\ obs.clean.encode /\ obs.clean.decode /\ obs.clean.names /\ obs.clean.render /\ obs.clean.full
 Clean_EncodeTotal == IsClean => EncodeTotal
 Clean_DecodeDefined == IsClean => DecodeDefined
 Clean_RoundTripMinimal == IsClean => RoundTripMinimal
